@@ -77,6 +77,12 @@ func judge(t *mon.T, which string, op string, c dec.Ctx, x, y dec.D, e Expect, o
 		}
 		return false
 	}
+	if e.SystemLimitOK && isSystemOutcome(o) {
+		// close to the package limits an exponent-limit error is an accepted
+		// outcome; a delivered result is judged below like any other
+		t.Skip("near-system-limit")
+		return false
+	}
 	if o.Flags&sysFlags != 0 || (o.Err != nil && strings.Contains(o.Err.Error(), "exponent out of range")) {
 		t.Fail("system-limit-inside-limits", detail(op, c, x, y, o, "exponent-limit error although all exponents are well inside the limits"))
 		return false
